@@ -93,6 +93,10 @@ pub fn enumerate(p: &Plan, f: &mut dyn FnMut(u64, &'static str, &[u8])) -> u64 {
     }
     let w0 = base;
     base += spaces::space_w(p.w_full, &mut |i, c| f(w0 + i, "W", c));
+    for c in spaces::space_v() {
+        f(base, "V", &c);
+        base += 1;
+    }
     for (_, c) in spaces::space_k() {
         f(base, "K", &c);
         base += 1;
@@ -121,6 +125,8 @@ pub fn replay_program(ctx: &mut WorkerCtx, prop: &'static str, backend: Backend,
         "A"
     } else if code.starts_with(b"++>>,>") || code.starts_with(b"+>>,>") {
         "W"
+    } else if code.starts_with(b",[>++++++++++++++++<-]>") {
+        "V"
     } else {
         "K"
     };
@@ -145,6 +151,16 @@ pub fn judge_program(ctx: &mut WorkerCtx, p: &Plan, prop: &'static str, backend:
                     .iter()
                     .map(|s| (s.to_vec(), crate::refbf::run(&code, w, s, p.step_cap * 4, false)))
                     .collect()
+            } else if tag == "V" {
+                // wide values: the multiplier loops run up to 2^60 times canonically; the reference closes
+                // them in one step (accelerated mode, validated against the naive mode in C04) and only
+                // optimising configurations are executed
+                let mut v = Vec::new();
+                for a in diff::INPUT_ALPHABET {
+                    v.push((vec![a], crate::refbf::run_opt(&code, w, &[a], p.step_cap, false, true)));
+                    v.push((vec![a, 3], crate::refbf::run_opt(&code, w, &[a, 3], p.step_cap, false, true)));
+                }
+                v
             } else {
                 diff::explore_env(&code, w, depth, p.step_cap, false)
             };
@@ -161,7 +177,28 @@ pub fn judge_program(ctx: &mut WorkerCtx, p: &Plan, prop: &'static str, backend:
                     ctx.distinct(h);
                 }
             }
+            if backend == Backend::Inplace && w == Width::W8 && tag == "A" {
+                // validate the accelerated reference against the naive one on everything it is used for
+                for (s, c) in &halting {
+                    let a = crate::refbf::run_opt(&code, w, s, p.step_cap, false, true);
+                    ctx.count("accel_reference_validated", 1);
+                    if a.verdict != c.verdict || a.trace != c.trace || a.pmin != c.pmin || a.pmax != c.pmax {
+                        let f = diff::Failure {
+                            class: "reference-accel".into(),
+                            mode: "reference".into(),
+                            observed: diff::trace_str(&a.trace),
+                            expected: diff::trace_str(&c.trace),
+                            first_diff: 0,
+                            detail: "MACHINERY: accelerated reference differs from the naive reference".into(),
+                        };
+                        ctx.fail(failure_json(prop, backend, w, 0, &code, s, &f));
+                    }
+                }
+            }
             for &level in &lv {
+                if tag == "V" && (level == 0 || backend == Backend::Inplace) {
+                    continue;
+                }
                 ctx.beat((w.bits() as u64) << 32 | level as u64 & 0xffff);
                 let comp = match compile(backend, w, level, std::str::from_utf8(&code).unwrap()) {
                     Ok(c) => c,
